@@ -16,6 +16,7 @@
 #include <iterator>
 #include <list>
 #include <memory>
+#include <string>
 #include <utility>
 
 #include "common.hpp"
@@ -980,11 +981,88 @@ static void probeArgumentForwarding() {
                 fcv[0].tag, fcv[1].tag, want, static_cast<long>(__cplusplus));
 }
 
+// Random access does not imply contiguous: std::reverse_iterator<T*> and a strided iterator are random access iterators
+// whose elements are not laid out in iteration order.  The bitwise variants (memcpy / memmove of count * sizeof(T) bytes from
+// the address of the first element) must not be selected for them.  Only a mismatch prints a line.
+template <class T>
+struct StrideIt {  // every second element of an array
+  typedef std::random_access_iterator_tag iterator_category;
+  typedef T value_type;
+  typedef std::ptrdiff_t difference_type;
+  typedef T *pointer;
+  typedef T &reference;
+  T *p;
+  explicit StrideIt(T *q = nullptr) : p(q) {}
+  T &operator*() const { return *p; }
+  T *operator->() const { return p; }
+  T &operator[](std::ptrdiff_t i) const { return p[2 * i]; }
+  StrideIt &operator++() { p += 2; return *this; }
+  StrideIt operator++(int) { StrideIt t(*this); p += 2; return t; }
+  StrideIt &operator--() { p -= 2; return *this; }
+  StrideIt operator--(int) { StrideIt t(*this); p -= 2; return t; }
+  StrideIt &operator+=(std::ptrdiff_t d) { p += 2 * d; return *this; }
+  StrideIt &operator-=(std::ptrdiff_t d) { p -= 2 * d; return *this; }
+  StrideIt operator+(std::ptrdiff_t d) const { return StrideIt(p + 2 * d); }
+  StrideIt operator-(std::ptrdiff_t d) const { return StrideIt(p - 2 * d); }
+  std::ptrdiff_t operator-(const StrideIt &o) const { return (p - o.p) / 2; }
+  bool operator==(const StrideIt &o) const { return p == o.p; }
+  bool operator!=(const StrideIt &o) const { return p != o.p; }
+  bool operator<(const StrideIt &o) const { return p < o.p; }
+  bool operator>(const StrideIt &o) const { return p > o.p; }
+  bool operator<=(const StrideIt &o) const { return p <= o.p; }
+  bool operator>=(const StrideIt &o) const { return p >= o.p; }
+};
+struct PlainInt {  // trivially copyable and trivially relocatable
+  int v;
+};
+static void probeNonContiguous() {
+  const int n = 4;
+  PlainInt src[2 * n + 1];
+  for (int i = 0; i < 2 * n + 1; ++i) src[i].v = 100 + i;
+  PlainInt dst[2 * n + 1];
+  std::string bad;
+  auto check = [&](const char *what, const int *want, int cnt) {
+    for (int i = 0; i < cnt; ++i)
+      if (dst[i].v != want[i]) {
+        bad += std::string(bad.empty() ? "" : "; ") + what + " element " + std::to_string(i) + " is " + std::to_string(dst[i].v) + " want " + std::to_string(want[i]);
+        break;
+      }
+  };
+  const int revWant[n] = {100 + n - 1, 100 + n - 2, 100 + n - 3, 100 + n - 4};
+  const int strWant[n] = {100, 102, 104, 106};
+  typedef std::reverse_iterator<PlainInt *> Rev;
+  amc::uninitialized_copy_n(Rev(src + n), n, dst);
+  check("uninitialized_copy_n(reverse_iterator)", revWant, n);
+  amc::uninitialized_copy(Rev(src + n), Rev(src), dst);
+  check("uninitialized_copy(reverse_iterator)", revWant, n);
+  amc::uninitialized_move_n(Rev(src + n), n, dst);
+  check("uninitialized_move_n(reverse_iterator)", revWant, n);
+  amc::uninitialized_relocate_n(Rev(src + n), n, dst);
+  check("uninitialized_relocate_n(reverse_iterator)", revWant, n);
+  amc::uninitialized_relocate(Rev(src + n), Rev(src), dst);
+  check("uninitialized_relocate(reverse_iterator)", revWant, n);
+  amc::uninitialized_copy_n(StrideIt<PlainInt>(src), n, dst);
+  check("uninitialized_copy_n(strided)", strWant, n);
+  amc::uninitialized_relocate_n(StrideIt<PlainInt>(src), n, dst);
+  check("uninitialized_relocate_n(strided)", strWant, n);
+  // destination not contiguous in iteration order
+  PlainInt out[2 * n + 1];
+  for (int i = 0; i < 2 * n + 1; ++i) out[i].v = -1;
+  amc::uninitialized_copy_n(src, n, StrideIt<PlainInt>(out));
+  for (int i = 0; i < n; ++i)
+    if (out[2 * i].v != 100 + i || out[2 * i + 1].v != -1) {
+      bad += std::string(bad.empty() ? "" : "; ") + "uninitialized_copy_n to a strided destination wrote slot " + std::to_string(2 * i) + "=" + std::to_string(out[2 * i].v) + "," + std::to_string(out[2 * i + 1].v);
+      break;
+    }
+  if (!bad.empty()) std::printf("NONCONTIG random access but not contiguous iterators: %s (cplusplus=%ld)\n", bad.c_str(), static_cast<long>(__cplusplus));
+}
+
 int main(int argc, char **argv) {
   if (argc > 1) gMaxN = std::atoi(argv[1]);
   std::printf("MEMDRV cplusplus=%ld maxn=%d\n", static_cast<long>(__cplusplus), gMaxN);
 #if !defined(GROUP) || GROUP == 0
   probeArgumentForwarding();
+  probeNonContiguous();
 #endif
 #ifdef GROUP
 #if GROUP / 4 == 0
